@@ -173,7 +173,8 @@ fn show_sorted(k: &RKind) -> String {
 
 pub fn test(reg: &Reg, case: &Case, stats: Option<&mut Stats>) -> Verdict {
     let e = &reg.entries[case.ty];
-    if case.payload.has_dup_keys() || has_parse_collision(&e.ty, &case.payload, 0) {
+    // (repeated members that carry one and the same value cannot make the order matter; other duplicates can)
+    if (case.payload.has_dup_keys() && !case.payload.dups_are_clones()) || has_parse_collision(&e.ty, &case.payload, 0) {
         if let Some(st) = stats {
             st.class("skipped: duplicate or post-parse colliding keys");
         }
@@ -254,7 +255,7 @@ pub fn run(tier: Tier) -> i32 {
             t.has_derived() || format!("{t:?}").contains("Map {") || matches!(t, Ty::Json) || format!("{t:?}").contains("Json")
         })
         .collect();
-    let gen = case_gen(reg.clone(), eligible, GenOpts { blind: 0.03, nonfinite: true, ..GenOpts::default() });
+    let gen = with_repeated_member(case_gen(reg.clone(), eligible, GenOpts { blind: 0.03, nonfinite: true, ..GenOpts::default() }));
     drive(
         "C15",
         tier,
